@@ -46,6 +46,41 @@ func runC17(c *core.Ctx) {
 	{
 		a := rule(c, "C17.R1")
 		callerHolds := map[*ssa.Function]bool{lRecycle: true, findNode: true}
+		// inferred: an unexported function of the package all of whose (non-test) call sites hold a latch
+		// mutex, or lie in a function that is itself caller-holds (a block extracted from a locked region)
+		for changed := true; changed; {
+			changed = false
+			for _, fn := range p.Funcs {
+				if fn.Pkg != sp || fn.Parent() != nil || callerHolds[fn] || fn.Object() == nil || fn.Object().Exported() {
+					continue
+				}
+				cs := p.CallersOf(fn)
+				nSites, all := 0, true
+				for _, s := range cs {
+					if strings.HasSuffix(p.Fset.Position(s.Fn.Pos()).Filename, "_test.go") {
+						continue
+					}
+					nSites++
+					if callerHolds[enclosing(s.Fn)] {
+						continue
+					}
+					held := core.Lockset(s.Fn)[s.Instr.(ssa.Instruction)]
+					anyW := false
+					for k, v := range held {
+						if v == 'W' && strings.HasSuffix(k, ".Mutex") {
+							anyW = true
+						}
+					}
+					if !anyW {
+						all = false
+					}
+				}
+				if nSites > 0 && all && len(p.FuncValueUses(fn)) == 0 {
+					callerHolds[fn] = true
+					changed = true
+				}
+			}
+		}
 		n := 0
 		for _, fn := range p.Funcs {
 			if enclosing(fn).Pkg != sp {
@@ -256,10 +291,33 @@ func runC17(c *core.Ctx) {
 		}
 		a.checkAt(nShrink == 1, fname(releaseSlot)+" dequeues", a.fnPos(releaseSlot), "", "dequeue not found")
 		// the waiter picked waits for this very key
-		eq := ifsOn(releaseSlot, core.PTrue(func(v ssa.Value) bool {
+		pEq := core.PTrue(func(v ssa.Value) bool {
 			cl := core.CalleeOf(v)
-			return cl != nil && cl.Name() == "Equal"
-		}))
+			if cl == nil || cl.Name() != "Equal" {
+				return false
+			}
+			// … of a waiting request's next key
+			call, ok := core.Strip(v).(*ssa.Call)
+			if !ok {
+				return false
+			}
+			for _, arg := range call.Call.Args {
+				if descHas(c, arg, "fld(Lock.keys,") {
+					return true
+				}
+			}
+			return false
+		})
+		eq := ifsOn(releaseSlot, pEq)
+		if len(eq) == 0 {
+			// the search may live in a private helper of the package
+			for _, ci := range core.FindCalls(releaseSlot, func(cc *ssa.CallCommon) bool {
+				g := cc.StaticCallee()
+				return g != nil && g.Pkg == sp && g.Object() != nil && !g.Object().Exported() && len(g.Blocks) > 0
+			}) {
+				eq = append(eq, ifsOn(ci.Common().StaticCallee(), pEq)...)
+			}
+		}
 		a.checkAt(len(eq) == 1, fname(releaseSlot)+" picks a waiter of the same key", a.fnPos(releaseSlot), "", "the woken waiter is not selected by key")
 	}
 
